@@ -11,9 +11,10 @@
    `<note>.1.tmp`, `<note>.2.tmp`, .. that does not exist — [tmp_of s (note_path k)], a function
    of the directory content —, write it, rename it over the note; the `fix:` commits R13 and
    399cea9).  [export k] is the text the in-memory export holds for key k (abstract here).
-   Hypotheses, all decidable on the tree: [names_ok] (no empty directory or file name),
-   [irregular t = false] (no loaded file named like `x.md.md` / `.md.md`: class F14).
-   No hypothesis about files that already carry a temporary name: they are never touched. *)
+   Hypothesis, decidable on the tree: [names_ok] (no empty directory or file name).
+   No hypothesis about files named like `x.md.md` / `.md.md` (loaded under the keys `x.md` / `.md`
+   since the loader takes ONE extension off: finding F14-double-md, repaired) nor about files
+   that already carry a temporary name: they are never touched. *)
 From IweV Require Import Str RelPath Fs FsFacts.
 Local Open Scope string_scope.
 Local Open Scope list_scope.
@@ -26,7 +27,7 @@ Theorem C19_paths :
   forall (t : list node) (order : list string),
     (forall k, In k order <-> In k (written_keys t)) ->
   forall v : variant,
-    names_ok t = true -> irregular t = false ->
+    names_ok t = true ->
     let s0 := files_of t in
     let s := run_ops (normalize_ops chunks v order s0) s0 in
     (forall l, In l (load t) ->
@@ -41,7 +42,7 @@ Check C19_paths :
   forall (t : list node) (order : list string),
     (forall k, In k order <-> In k (written_keys t)) ->
   forall v : variant,
-    names_ok t = true -> irregular t = false ->
+    names_ok t = true ->
     let s0 := files_of t in
     let s := run_ops (normalize_ops chunks v order s0) s0 in
     (forall l, In l (load t) ->
@@ -126,7 +127,7 @@ Proof. intros. reflexivity. Qed.
 Example C19_nonvacuous :
   let t := [File "a.md" "# A"; File "a.md.tmp" "stale";
             Dir "my dir" [Dir "e" [File "b c.md" "* x"]; File "notes.txt" "t"]; File ".md" "x"] in
-  names_ok t = true /\ irregular t = false /\
+  names_ok t = true /\
   written_keys t = ["a"; "my dir/e/b c"] /\
   map l_path (load t) = ["a.md"; "my dir/e/b c.md"] /\
   map fst (files_of t) = ["a.md"; "a.md.tmp"; "my dir/e/b c.md"; "my dir/notes.txt"; ".md"].
@@ -156,7 +157,7 @@ Theorem C19_as_found_refuted :
     let chunks := fun _ : string => ["new"] in
     (forall k, sconcat (chunks k) = export k) /\
     (forall k, In k order <-> In k (written_keys t)) /\
-    names_ok t = true /\ irregular t = false /\
+    names_ok t = true /\
     lookup "a.md" (files_of t) = Some "old" /\
     lookup "a.md" (run_ops (firstn n (normalize_ops chunks AsFound order (files_of t))) (files_of t)) = Some "".
 Proof. exact as_found_truncates. Qed.
@@ -167,31 +168,46 @@ Check C19_as_found_refuted :
     let chunks := fun _ : string => ["new"] in
     (forall k, sconcat (chunks k) = export k) /\
     (forall k, In k order <-> In k (written_keys t)) /\
-    names_ok t = true /\ irregular t = false /\
+    names_ok t = true /\
     lookup "a.md" (files_of t) = Some "old" /\
     lookup "a.md" (run_ops (firstn n (normalize_ops chunks AsFound order (files_of t))) (files_of t)) = Some "".
 Print Assumptions C19_as_found_refuted.
 
-(* F14 (open): `x.md.md` is loaded under key `x` and written to `x.md` — a file is created and
-   the note itself is not rewritten. *)
-Theorem C19_double_md_refuted :
-  exists (t : list node) (order : list string),
-    let export := fun _ : string => "new" in
-    let chunks := fun _ : string => ["new"] in
-    (forall k, In k order <-> In k (written_keys t)) /\
-    irregular t = true /\
-    let s := run_ops (normalize_ops chunks AsFound order (files_of t)) (files_of t) in
-    lookup "x.md" (files_of t) = None /\ lookup "x.md" s = Some "new" /\
-    lookup "x.md.md" s = Some "old".
-Proof. exact double_md_misplaced. Qed.
+(* The former witness of F14-double-md (repaired): `x.md.md` is loaded under the key `x.md`, next to
+   `x.md` (key `x`); each is rewritten in place and nothing is created. *)
+Theorem C19_double_md_in_place :
+  let t := [File "x.md.md" "old"; File "x.md" "other"] in
+  let export := fun k : string => "new " +++ k in
+  let chunks := fun k : string => ["new "; k] in
+  forall (order : list string) (v : variant),
+    (forall k, In k order <-> In k (written_keys t)) ->
+    names_ok t = true /\ written_keys t = ["x.md"; "x"] /\
+    map (fun l => (l_key l, l_path l)) (load t) = [("x.md", "x.md.md"); ("x", "x.md")] /\
+    let s := run_ops (normalize_ops chunks v order (files_of t)) (files_of t) in
+    lookup "x.md.md" s = Some "new x.md" /\ lookup "x.md" s = Some "new x" /\
+    forall q, q <> "x.md.md" -> q <> "x.md" -> lookup q s = None.
+Proof. exact double_md_in_place. Qed.
 
-Check C19_double_md_refuted :
-  exists (t : list node) (order : list string),
-    let export := fun _ : string => "new" in
-    let chunks := fun _ : string => ["new"] in
-    (forall k, In k order <-> In k (written_keys t)) /\
-    irregular t = true /\
-    let s := run_ops (normalize_ops chunks AsFound order (files_of t)) (files_of t) in
-    lookup "x.md" (files_of t) = None /\ lookup "x.md" s = Some "new" /\
-    lookup "x.md.md" s = Some "old".
-Print Assumptions C19_double_md_refuted.
+Check C19_double_md_in_place :
+  let t := [File "x.md.md" "old"; File "x.md" "other"] in
+  let export := fun k : string => "new " +++ k in
+  let chunks := fun k : string => ["new "; k] in
+  forall (order : list string) (v : variant),
+    (forall k, In k order <-> In k (written_keys t)) ->
+    names_ok t = true /\ written_keys t = ["x.md"; "x"] /\
+    map (fun l => (l_key l, l_path l)) (load t) = [("x.md", "x.md.md"); ("x", "x.md")] /\
+    let s := run_ops (normalize_ops chunks v order (files_of t)) (files_of t) in
+    lookup "x.md.md" s = Some "new x.md" /\ lookup "x.md" s = Some "new x" /\
+    forall q, q <> "x.md.md" -> q <> "x.md" -> lookup q s = None.
+Print Assumptions C19_double_md_in_place.
+
+(* no two loaded files share a key *)
+Theorem C19_keys_distinct :
+  forall (t : list node) (l l' : loaded),
+    names_ok t = true -> In l (load t) -> In l' (load t) -> l_key l = l_key l' -> l_path l = l_path l'.
+Proof. exact load_keys_inj. Qed.
+
+Check C19_keys_distinct :
+  forall (t : list node) (l l' : loaded),
+    names_ok t = true -> In l (load t) -> In l' (load t) -> l_key l = l_key l' -> l_path l = l_path l'.
+Print Assumptions C19_keys_distinct.
